@@ -177,7 +177,7 @@ def run_check(modname, argv):
     sys.stdout.flush()
     known = load_known(prop)
     tasks = mod.plan(args.tier, seed, args.scale) if _takes_scale(mod.plan) else mod.plan(args.tier, seed)
-    timeout = getattr(mod, "TASK_TIMEOUT", {"quick": 600, "thorough": 3000})[args.tier]
+    timeout = getattr(mod, "TASK_TIMEOUT", {"quick": 900, "thorough": 5400})[args.tier]
     for t in tasks:
         t["_timeout"] = timeout
 
